@@ -101,6 +101,20 @@ def run_script(D, cn, sc, variant, islinear=0):
                              monitors=mon_dict(cj["freqs"], variant) if cj["freqs"] else None, directives=dirs(cj))
             raws.append(raw)
             rels.append({"type": "same", "a": j + 1, "b": len(raws), "c": 0})
+    # twin 1c: a restart repeated, from the same field, on a FRESH object -- for the integrators without a multistep history the
+    # object contributes nothing to a restart either (gear legitimately continues its BDF2 history on the same object)
+    # (the implicit classes keep the finite-difference Jacobian of a model that declares itself linear: by design it is the one
+    # of the first field the object saw, which a fresh object cannot know -- their restarts are not compared across objects)
+    if D.KIND_OF[cn] == "onestep" or (D.KIND_OF[cn] == "implicit" and not islinear):
+        for j in range(1, len(calls)):
+            cj = calls[j]
+            if cj["op"] == "restart" and cj["cont"] and raws[j - 1]["results"]:
+                Sr = mk()
+                arg = raws[j - 1]["results"][-1]
+                raw, _ = Sr.call("restart", arg, float(cj.get("cfl", 1)), [t / U for t in cj["tsave"]], stop_of(cj, U),
+                                 monitors=mon_dict(cj["freqs"], variant) if cj["freqs"] else None, directives=dirs(cj))
+                raws.append(raw)
+                rels.append({"type": "same", "a": j + 1, "b": len(raws), "c": 0})
     # twin 2: the plain run (no save time, no monitor) with the same stop, fresh object
     if (c0["tsave"] or c0["freqs"]) and c0["op"] != "legacy":
         S3 = mk()
